@@ -263,7 +263,7 @@ class Gen:
     Every task has variable r: R (In parameter, or Out of its first service).
     """
 
-    def __init__(self, rng, depth=3, ntasks=3, ploops=True, params=True, services="ABCD", focus=None, ploop_lit_in_loop=False, shadow_loopvars=False):
+    def __init__(self, rng, depth=3, ntasks=3, ploops=True, params=True, services="ABCD", focus=None, ploop_lit_in_loop=False, shadow_loopvars=True):
         self.ploop_lit_in_loop = ploop_lit_in_loop
         self.shadow_loopvars = shadow_loopvars
         self.rng = rng
@@ -341,7 +341,14 @@ class Gen:
                 if rng.random() < 0.5:
                     out.append({"k": "svc", "name": rng.choice(self.services), "ins": self.svc_params(ctx["loopvars"]), "outs": []})
                 lim = rng.choice([1, 2, 3]) if (rng.random() < 0.5 or ctx.get("inloop")) else rng.choice(NUM_PATHS)
-                out.append({"k": "ploop", "var": st["var"], "limit": lim, "call": self.call(callees, ctx["loopvars"] + [st["var"]])})
+                c2 = self.call(callees, ctx["loopvars"] + [st["var"]])
+                # prefer a callee that takes a P: the parameter is written with the counting variable as index
+                withp = [t for t in callees if any(ty == "P" for _, ty in self.sigs[t])]
+                if withp and rng.random() < 0.7:
+                    t = rng.choice(withp)
+                    c2 = {"k": "call", "name": t, "outs": [],
+                          "ins": [(["r", "parts", "[" + st["var"] + "]"] if ty == "P" else self.gen_param(ty, ctx["loopvars"] + [st["var"]])) for _, ty in self.sigs[t]]}
+                out.append({"k": "ploop", "var": st["var"], "limit": lim, "call": c2})
         return out
 
     def call(self, callees, loopvars):
@@ -413,6 +420,7 @@ class Gen:
                 self.sigs[n] = [["p", "P"], ["r", "R"]]
             else:
                 self.sigs[n] = [["r", "R"], ["p", "P"]]
+        chain = self.ploops and len(names) >= 3 and rng.random() < (0.3 if self.focus and "ploop" in self.focus else 0.08)
         tasks = []
         order = ["productionTask"] + names
         for idx, n in enumerate(order):
@@ -421,7 +429,17 @@ class Gen:
             ctx = {"inloop": False, "loopvars": [], "ploop_ok": True}
             body = self.gen_block(self.depth if idx == 0 else max(1, self.depth - 1), callees, ctx)
             has_r = any(x == "r" for x, _ in self.sigs[n])
-            if idx > 0 and callees and has_r and self.ploops and rng.random() < (0.35 if self.focus and "ploop" in self.focus else 0.12):
+            if chain and idx in (1, 2) and has_r and len(callees) >= 1:
+                # t1 starts with a call of t2, t2 starts with a parallel loop over t3 whose limit is read from a variable
+                if idx == 1:
+                    body.insert(0, {"k": "call", "name": names[1], "outs": [],
+                                    "ins": [self.gen_param(ty, []) for _, ty in self.sigs[names[1]]]})
+                else:
+                    v = self.fresh_loopvar([])
+                    body.insert(0, {"k": "ploop", "var": v, "limit": rng.choice(NUM_PATHS),
+                                    "call": {"k": "call", "name": names[2], "outs": [],
+                                             "ins": [self.gen_param(ty, [v]) for _, ty in self.sigs[names[2]]]}})
+            elif idx > 0 and callees and has_r and self.ploops and rng.random() < (0.35 if self.focus and "ploop" in self.focus else 0.12):
                 # chains of calls whose first statement is a call / a parallel loop (the limit is the first thing the
                 # new task instance asks for)
                 if rng.random() < 0.5:
